@@ -19,6 +19,7 @@ import (
 	"storj.io/drpc/drpcmanager"
 	"storj.io/drpc/drpcmetadata"
 	"storj.io/drpc/drpcstream"
+	"storj.io/drpc/drpcwire"
 
 	"verifharness/census"
 	"verifharness/payload"
@@ -615,6 +616,119 @@ func longHistory(id string, seed uint64, what string, n int) runner.Result {
 	return wireVerdict(id, hist, rg, true)
 }
 
+// lateCalls: RPC 1 has ended (gracefully with both half-closes, or by the handler's error, or by the
+// client's Close) and RPC 2 is under way on the connection when the application comes back to the
+// stream object of RPC 1 and calls things on it that are documented to do nothing by then: SendError,
+// Close, CloseSend, SendCancel, RawFlush, a send. Whatever they return, nothing of stream 1 may reach
+// the wire behind frames of stream 2.
+func lateCalls(id string, seed uint64) runner.Result {
+	r := &payload.SplitMix{S: seed}
+	cfg := prog.GenConfig(r, false)
+	if cfg.Net.Cap == 0 {
+		cfg.Net.Cap = -1
+	}
+	ending := payload.Pick(r, []string{"both-half-closes", "handler-error", "client-close"})
+	release := make(chan struct{})
+	handler := rig.HandlerFunc(func(stream drpc.Stream, rpc string) error {
+		var m []byte
+		if rpc == "/second" {
+			for stream.MsgRecv(&m, payload.Enc{}) == nil {
+			}
+			out := payload.Make(2, 1, 0, 0, 5)
+			return stream.MsgSend(&out, payload.Enc{})
+		}
+		for stream.MsgRecv(&m, payload.Enc{}) == nil {
+		}
+		if ending == "handler-error" {
+			return errors.New("first failed")
+		}
+		return nil
+	})
+	rg := rig.New(rig.Config{Net: cfg.Net, Client: cfg.Client, Server: cfg.Server}, handler)
+	defer rg.Teardown()
+	defer close(release)
+	st1, err := rg.Conn.NewStream(context.Background(), "/first", payload.Enc{})
+	if err != nil {
+		return runner.Inconcl(id, "NewStream: "+err.Error())
+	}
+	in := payload.Make(1, 0, 0, 0, 20)
+	st1.MsgSend(&in, payload.Enc{})
+	if ending == "client-close" {
+		st1.Close()
+	} else {
+		st1.CloseSend()
+		var m []byte
+		for st1.MsgRecv(&m, payload.Enc{}) == nil {
+		}
+	}
+	census.Quiesce(rig.Watchdog)
+	st2, err := rg.Conn.NewStream(context.Background(), "/second", payload.Enc{})
+	if err != nil {
+		return runner.Hold(id, "the connection did not survive the first RPC: "+cfg.Desc, false)
+	}
+	in2 := payload.Make(2, 0, 0, 0, 3000)
+	st2.MsgSend(&in2, payload.Enc{})
+	census.Quiesce(rig.Watchdog)
+	// the late calls on the old stream, in a seeded order, some of them while stream 2 is sending
+	raw, _ := st1.(*drpcstream.Stream)
+	calls := []string{"SendError", "Close", "CloseSend", "SendCancel", "RawFlush", "MsgSend", "RawWrite"}
+	for i := len(calls) - 1; i > 0; i-- {
+		j := r.Intn(i + 1)
+		calls[i], calls[j] = calls[j], calls[i]
+	}
+	calls = calls[:2+r.Intn(len(calls)-1)]
+	var sender *rig.Op
+	if r.Intn(2) == 0 {
+		sender = rig.Go("stream2-send", func() (interface{}, error) {
+			for k := 0; k < 4; k++ {
+				m := payload.Make(2, 0, 0, uint32(k+1), 5000)
+				if err := st2.MsgSend(&m, payload.Enc{}); err != nil {
+					return nil, err
+				}
+			}
+			return nil, nil
+		})
+	}
+	for _, c := range calls {
+		switch c {
+		case "SendError":
+			if raw != nil {
+				raw.SendError(errors.New("late error"))
+			}
+		case "Close":
+			st1.Close()
+		case "CloseSend":
+			st1.CloseSend()
+		case "SendCancel":
+			if raw != nil {
+				raw.SendCancel(errors.New("late cancel"))
+			}
+		case "RawFlush":
+			if raw != nil {
+				raw.RawFlush()
+			}
+		case "MsgSend":
+			m := payload.Make(1, 0, 0, 9, 10)
+			st1.MsgSend(&m, payload.Enc{})
+		case "RawWrite":
+			if raw != nil {
+				raw.RawWrite(drpcwire.KindMessage, []byte("late"))
+			}
+		}
+	}
+	if sender != nil {
+		sender.Wait()
+	}
+	st2.CloseSend()
+	var m []byte
+	for st2.MsgRecv(&m, payload.Enc{}) == nil {
+	}
+	st2.Close()
+	census.Quiesce(rig.Watchdog)
+	hist := fmt.Sprintf("%s | late-calls: RPC 1 ended by %s, RPC 2 under way (sending meanwhile: %v), then on the stream of RPC 1: %s", cfg.Desc, ending, sender != nil, strings.Join(calls, ", "))
+	return wireVerdict(id, hist, rg, true)
+}
+
 func drpcAppend(dst []byte, sid, mid uint64, kind uint8, data []byte) []byte {
 	return refwire.Encode(dst, refwire.Frame{Stream: sid, Message: mid, Kind: kind, Done: true, Data: data})
 }
@@ -648,6 +762,10 @@ func gen(tier string, seed uint64) []runner.Scenario {
 			id4 := fmt.Sprintf("cancel-at-creation/%d", i)
 			out = append(out, runner.Scenario{ID: id4, Run: func() runner.Result { return cancelAtCreation(id4, payload.Hash(seed, 0xC073, uint64(i))) }})
 		}
+		if i%4 == 0 {
+			id5 := fmt.Sprintf("late-calls/%d", i)
+			out = append(out, runner.Scenario{ID: id5, Run: func() runner.Result { return lateCalls(id5, payload.Hash(seed, 0xC075, uint64(i))) }})
+		}
 		id3 := fmt.Sprintf("raw-next-invoke/%d", i)
 		out = append(out, runner.Scenario{ID: id3, Run: func() runner.Result { return rawNextInvoke(id3, payload.Hash(seed, 0xC072, uint64(i))) }})
 	}
@@ -658,7 +776,7 @@ func main() {
 	runner.Main(runner.Check{
 		Property: "C07",
 		Level:    "exploration",
-		Rule:     "four families. (long-history) 33500 (thorough: 140000) one-byte messages each way on one stream, and 17000 (thorough: 70000) unary RPCs on one connection, sequentially: message and stream ids grow through the values at which their encoding changes length. (storm) one case = one storm on one connection: 2-5 RPCs; in each streaming RPC 2-5 client goroutines issue 1-5 of MsgSend (boundary sizes, multi-frame), CloseSend, Close, RawFlush, context cancel, MsgRecv on the shared stream; the handler runs 0-2 sender goroutines plus a reader and returns nil or an error, one time in four while its senders are still in flight; about one in seven of the first 60 writes of each endpoint is parked (before or after delivering its bytes) and released one at a time at quiescence; seeded configuration cell, both cancel modes, perturbed scheduling in half of the cases. (parked-terminal) a client send parked inside the transport, a concurrent Close/CloseSend/SendError parked at one of its three internal points, the server ending the RPC remotely, further RPCs started, then write and call released in turn. (raw-next-invoke) a manager-level server handling each stream in its own goroutine, a raw peer moving to the next stream without closing the previous while the reply is parked in the transport and the terminal call is parked. Non-trivial: more than 4 transport writes observed. Distinct: by configuration and storm seed (program text is determined by the seed).",
+		Rule:     "five families. (late-calls) RPC 1 has ended (both half-closes / handler error / client Close), RPC 2 is under way, and 2-7 of SendError, Close, CloseSend, SendCancel, RawFlush, MsgSend, RawWrite are called on the stream object of RPC 1 in a seeded order, in half of the cases while RPC 2 is sending. (long-history) 33500 (thorough: 140000) one-byte messages each way on one stream, and 17000 (thorough: 70000) unary RPCs on one connection, sequentially: message and stream ids grow through the values at which their encoding changes length. (storm) one case = one storm on one connection: 2-5 RPCs; in each streaming RPC 2-5 client goroutines issue 1-5 of MsgSend (boundary sizes, multi-frame), CloseSend, Close, RawFlush, context cancel, MsgRecv on the shared stream; the handler runs 0-2 sender goroutines plus a reader and returns nil or an error, one time in four while its senders are still in flight; about one in seven of the first 60 writes of each endpoint is parked (before or after delivering its bytes) and released one at a time at quiescence; seeded configuration cell, both cancel modes, perturbed scheduling in half of the cases. (parked-terminal) a client send parked inside the transport, a concurrent Close/CloseSend/SendError parked at one of its three internal points, the server ending the RPC remotely, further RPCs started, then write and call released in turn. (raw-next-invoke) a manager-level server handling each stream in its own goroutine, a raw peer moving to the next stream without closing the previous while the reply is parked in the transport and the terminal call is parked. Non-trivial: more than 4 transport writes observed. Distinct: by configuration and storm seed (program text is determined by the seed).",
 		Assumptions: []string{
 			"the monitor reads the transport tap only; nothing about delivery is asserted here",
 			"a storm that cannot finish (application-level flow-control deadlock) is still judged on the bytes it wrote",
